@@ -395,7 +395,14 @@ class Plugin:
     rule = ""
 
     def corpus(self):
-        return []
+        """minimised past disagreements / witnesses: /verif/corpus/<prop>/*.json, each {"case": ...}"""
+        d = os.path.join(CORPUS, self.prop)
+        out = []
+        if os.path.isdir(d):
+            for f in sorted(os.listdir(d)):
+                if f.endswith(".json"):
+                    out.append(json.load(open(os.path.join(d, f)))["case"])
+        return out
 
     def generate(self, tier, rng):
         raise NotImplementedError
@@ -508,7 +515,7 @@ def run_check(plugin, tier=None, replay=None):
         so, _, smon = plugin.evaluate([small])
         try:
             model_val = coq_eval_terms(prop, plugin.header, [f"{plugin.model_fn} ({plugin.coq_case(small)})"])
-        except CheckError as e:
+        except (CheckError, NotImplementedError) as e:
             model_val = [str(e)[-500:]]
         path = write_replay(prop, {
             "property": prop, "kind": "spec monitor rejects the implementation's behaviour",
@@ -542,7 +549,7 @@ def run_check(plugin, tier=None, replay=None):
             so, _, _ = plugin.evaluate([small])
             try:
                 model_val = coq_eval_terms(prop, plugin.header, [f"{plugin.model_fn} ({plugin.coq_case(small)})"])
-            except CheckError as e:
+            except (CheckError, NotImplementedError) as e:
                 model_val = [str(e)[-500:]]
             path = write_replay(prop, {
                 "property": prop,
